@@ -357,6 +357,156 @@ def r6_orientation(rule, root=None):
         rule.bad("orientation|unused", "the determinant of world_to_model is computed in %s but no triangle's index order depends on its sign" % fn["name"], A.where(fn, c))
 
 
+def r8_edge_search(rule, root=None):
+    """the N-ary search along a sign-changing cell edge: sample j of N lies at start + (end - start) * j / (N - 1)
+    (so sample 0 is the inside end and sample N - 1 the outside end); the bracket is narrowed to the samples on either
+    side of the first non-negative value with the *same* interpolation; the intersection is the bracket's midpoint;
+    its gradient is taken with unit seeds in axis order.  Expressions are interpreted on symbols (vectors act
+    component-wise, so one symbol stands for a position)."""
+    import sympy as sp
+
+    from .. import qef as QF
+
+    fn = builder_fn("leaf", root)
+    s_, e_, j_, N_, fr = sp.symbols("start end j N frac", real=True)
+    want = lambda t: (s_ * (N_ - 1 - t) + e_ * t) / (N_ - 1)  # noqa: E731
+
+    class VI(QF.TInterp):
+        def ev(self, e):
+            if e.get("k") == "MethodCall" and e["method"] == "map" and len(e["args"]) == 1 and A.strip(e["args"][0]).get("k") == "Closure":
+                recv = self.ev(e["recv"])
+                if not isinstance(recv, (list, tuple)):
+                    clo = A.strip(e["args"][0])
+                    sub = VI(self.env)
+                    sub.bind(clo.get("inputs", clo.get("params"))[0], recv)
+                    return sub.ev(clo["body"])
+            return super().ev(e)
+
+    env = {"start": s_, "end": e_, "j": j_, "EDGE_SEARCH_SIZE": N_, "frac": fr}
+    # 1. the sampling position
+    pos = None
+    for f_ in A.find(fn["body"], "For"):
+        if A.binding_name(f_["pat"]) == "j" and "EDGE_SEARCH_SIZE" in txt(f_["iter"]):
+            for l_ in A.find(f_["body"], "Let"):
+                if l_.get("init") is not None and "start" in txt(l_["init"]) and "end" in txt(l_["init"]):
+                    pos = l_
+                    break
+    if pos is None:
+        rule.lost("the sample position `pos` of the edge search (for j in 0..EDGE_SEARCH_SIZE)")
+    else:
+        try:
+            got = VI(env).ev(pos["init"])
+            if sp.simplify(got - want(j_)) == 0:
+                rule.ok("sample j of an edge lies at start + (end - start) j / (N - 1)", file=OCT, line=pos["ln"])
+            else:
+                rule.bad("search|sample", "sample j of the edge search lies at `%s`; the search needs start + (end - start) j / (N - 1), with sample 0 at the inside end and sample N - 1 at the outside end" % sp.simplify(got), A.where(OCT, pos))
+        except Exception as ex:  # noqa: BLE001
+            rule.skip("edge search sample position", "outside the interpreted subset: %s" % ex, count=True)
+    # 2. the narrowing
+    clos = [l_ for l_ in A.find(fn["body"], "Let") if l_.get("init") is not None and A.strip(l_["init"]).get("k") == "Closure" and "start" in txt(l_["init"]) and "end" in txt(l_["init"]) and "EDGE_SEARCH_SIZE" in txt(l_["init"])]
+    if not clos:
+        rule.skip("edge search narrowing", "no interpolation closure found", count=True)
+    else:
+        c = A.strip(clos[0]["init"])
+        fname = A.binding_name(clos[0]["pat"])
+        try:
+            sub = VI(env)
+            p0 = c.get("inputs", c.get("params"))[0]
+            t = sp.Symbol("t", real=True)
+            sub.bind(p0, t)
+            got = sub.ev(c["body"])
+            if sp.simplify(got - want(t)) == 0:
+                rule.ok("the bracket is narrowed with the sampling interpolation", file=OCT, line=clos[0]["ln"])
+            else:
+                rule.bad("search|narrow", "the bracket is narrowed with `%s`, the samples were taken at `%s`: the new end points are not the sampled positions" % (sp.simplify(got), want(t)), A.where(OCT, clos[0]))
+        except Exception as ex:  # noqa: BLE001
+            rule.skip("edge search narrowing", "outside the interpreted subset: %s" % ex, count=True)
+        # a = f(frac - 1) -> start, b = f(frac) -> end
+        calls = {}
+        for l_ in A.find(fn["body"], "Let"):
+            i_ = A.strip(l_["init"]) if l_.get("init") is not None else None
+            if i_ is not None and i_.get("k") == "Call" and A.path_segs(i_["func"]) == [fname] and len(i_["args"]) == 1:
+                calls[A.binding_name(l_["pat"])] = txt(i_["args"][0]).replace("(", "").replace(")", "")
+        body_t = txt(fn["body"])
+        lo = [n for n, a in calls.items() if a == "frac-1"]
+        hi = [n for n, a in calls.items() if a == "frac"]
+        if lo and hi and ("*start=%s.map(" % lo[0]) in body_t and ("*end=%s.map(" % hi[0]) in body_t:
+            rule.ok("the new inside end is sample frac - 1, the new outside end sample frac", file=OCT, line=clos[0]["ln"])
+        else:
+            rule.bad("search|bracket", "the narrowed bracket must run from sample frac - 1 (inside) to sample frac (outside); found %s" % (calls,), A.where(OCT, clos[0]))
+    # 3. frac = first non-negative sample
+    fr_l = [l_ for l_ in A.find(fn["body"], "Let") if A.binding_name(l_["pat"]) == "frac" and l_.get("init") is not None]
+    if not fr_l:
+        rule.skip("edge search bracket index", "no `frac`", count=True)
+    else:
+        t = txt(fr_l[0]["init"])
+        if ".find(|(_i,v)|(**v>=0.0))" in t or ".position(|v|(*v>=0.0))" in t or ".find(|(_,v)|(**v>=0.0))" in t or ".position(|&v|(v>=0.0))" in t or ".find(|(_i,v)|!(**v<0.0))" in t:
+            rule.ok("frac is the first sample that is not inside (>= 0, as in the corner mask's `< 0`)", file=OCT, line=fr_l[0]["ln"])
+        else:
+            rule.bad("search|frac", "frac must be the index of the first sample with value >= 0 (the corner mask calls `< 0` inside); found `%s`" % t[:90], A.where(OCT, fr_l[0]))
+    # 4. the intersection is the midpoint
+    mid = [l_ for l_ in A.find(fn["body"], "Let") if A.binding_name(l_["pat"]) == "intersections" and l_.get("init") is not None]
+    if not mid:
+        rule.skip("edge intersections", "no `intersections`", count=True)
+    else:
+        mp = [m for m in A.find(mid[0]["init"], "MethodCall") if m["method"] == "map" and A.strip(m["args"][0]).get("k") == "Closure" and len(A.strip(m["args"][0]).get("inputs", [])) == 1]
+        ok_ = False
+        src_ok = "start.iter().zip(end.iter())" in txt(mid[0]["init"]) or "start.iter().zip(end)" in txt(mid[0]["init"])
+        for m in mp:
+            c = A.strip(m["args"][0])
+            p0 = c["inputs"][0]
+            try:
+                sub = VI({})
+                a_, b_ = sp.symbols("a b", real=True)
+                sub.bind(p0, (a_, b_))
+                got = sub.ev(c["body"])
+                if sp.simplify(got - (a_ + b_) / 2) == 0:
+                    ok_ = True
+                    break
+            except Exception:  # noqa: BLE001
+                continue
+        if ok_ and src_ok:
+            rule.ok("an edge's intersection is the midpoint of its final bracket", file=OCT, line=mid[0]["ln"])
+        elif not mp:
+            rule.skip("edge intersections", "not a map over (start, end) pairs", count=True)
+        else:
+            rule.bad("search|midpoint", "an edge's intersection must be the midpoint (a + b) / 2 of its own final bracket (start zipped with end)", A.where(OCT, mid[0]))
+
+
+def r8b_edge_endpoints(rule, root=None):
+    """a sign-changing edge runs along one axis; its search starts at the end the table calls `start` (inside):
+    along the edge's axis the start is at 0 exactly when the end corner has that axis bit set, and across it both
+    ends share the start corner's other two coordinates (coordinate k from bit k)"""
+    fn = builder_fn("leaf", root)
+    t = txt(fn["body"])
+    m = t.fmatch("let($A,$B)=if((e.end().index()&axis)!=0){(0,u16::MAX)}else{(u16::MAX,0)};")
+    if m is None:
+        m = t.fmatch("let($A,$B)=if((e.start().index()&axis)==0){(0,u16::MAX)}else{(u16::MAX,0)};")
+    if m is None:
+        m = t.fmatch("let($A,$B)=if((e.end().index()&axis)==0){(u16::MAX,0)}else{(0,u16::MAX)};")
+    if m is None:
+        rule.bad("endpoints|along", "along its axis a search edge must start at 0 when the end corner has the axis bit set (and at the far side otherwise)", A.where(OCT, fn))
+    else:
+        rule.ok("along the edge's axis the inside end is opposite the outside corner's bit", file=OCT, line=fn["ln"])
+        m2 = t.fmatch("v[(axis.trailing_zeros()asusize)]=$A;start[edge_count]=v;v[(axis.trailing_zeros()asusize)]=$B;end[edge_count]=v;", bind=m)
+        if m2 is None:
+            rule.bad("endpoints|store", "the first coordinate of the pair goes to `start`, the second to `end`, both along `axis.trailing_zeros()`", A.where(OCT, fn))
+        else:
+            rule.ok("start takes the inside coordinate, end the outside one", file=OCT, line=fn["ln"])
+    n = 0
+    for off in (1, 2):
+        mk = t.fmatch("let$K=((axis.trailing_zeros()+%d)%%3);" % off)
+        if mk is None:
+            continue
+        if t.fmatch("v[($Kasusize)]=if(e.start()&Axis::new((1<<$K))){u16::MAX}else{0};", bind=mk) is not None:
+            n += 1
+            rule.ok("coordinate (axis + %d) mod 3 comes from the same bit of the start corner" % off, file=OCT, line=fn["ln"])
+        else:
+            rule.bad("endpoints|across|%d" % off, "coordinate (axis + %d) mod 3 of a search edge must be u16::MAX exactly when the start corner has that same bit set" % off, A.where(OCT, fn))
+    if n == 0 and "axis.trailing_zeros()+1" not in t:
+        rule.skip("edge endpoints across the axis", "the other two coordinates are not derived as (axis + 1) % 3 / (axis + 2) % 3", count=True)
+
+
 def run(ctx):
     r = ctx.rule("R1", "dual walk: every recursive face/edge call is geometrically consistent on the sub-cell lattice; frames are right-handed rotations", 39)
     ctx.guarded(r, DW.r1_dual_walk)
@@ -376,3 +526,6 @@ def run(ctx):
 
     r = ctx.rule("R7", "QEF algebra: add_intersection accumulates n n^T, n (n . p), (n . p)^2 and (p, 1) for the unit normal; merged solvers add; solve minimises about the mass point (right-hand side A^T b - A^T A c, position = solution + c) and reports E(x) at the position it returns", 12)
     ctx.guarded(r, QF.r_qef_algebra)
+    r = ctx.rule("R8", "edge search: samples interpolate inside end -> outside end, the bracket narrows to the samples around the first non-negative value with the same interpolation, the intersection is the bracket's midpoint; edge end points from the corner bits", 8)
+    ctx.guarded(r, r8_edge_search)
+    ctx.guarded(r, r8b_edge_endpoints)
